@@ -53,6 +53,7 @@ func checkC13(c *core.Ctx) error {
 	checkRecurrences(c)
 	checkMgamma(c)
 	checkPolygammaSeries(c)
+	checkRangeGuards(c)
 	return nil
 }
 
